@@ -3,7 +3,7 @@
 use crate::cssmodel::*;
 
 pub const SIMPLE_ATOMS: u64 = 8;
-pub const FUNCS: &[&str] = &[":not(", ":is(", ":where(", ":has(", "::slotted(", ":nth-child("];
+pub const FUNCS: &[&str] = &[":not(", ":is(", ":where(", ":has(", "::slotted(", ":nth-child(", ":host(", ":host-context("];
 pub const COMBINATORS: &[&str] = &[" ", ">", "+", "~"];
 
 pub fn atoms_count(d: u32) -> u64 {
@@ -116,7 +116,7 @@ pub fn push_sel(sh: &mut Sheet, d: u32, idx: u64, base_ctx: &str, fdepth: u32) {
 }
 
 /// rule-bearing wrappers: (name, pieces of the opening up to and including `{`)
-pub const WRAPPERS: &[&str] = &["@media", "@supports", "@layer", "@container", "@scope", "@document"];
+pub const WRAPPERS: &[&str] = &["@media", "@supports", "@layer", "@container", "@scope", "@document", "@MEDIA"];
 
 pub fn push_wrapper_open(sh: &mut Sheet, w: usize) {
     let ctx = format!("prelude:{}", WRAPPERS[w]);
@@ -190,6 +190,12 @@ pub fn push_wrapper_open(sh: &mut Sheet, w: usize) {
             sh.plain("@document", &ctx);
             sh.ws(false, &ctx);
             sh.plain("url(x)", &ctx);
+        }
+        6 => {
+            // at-rule names are ASCII case-insensitive
+            sh.plain("@MEDIA", &ctx);
+            sh.ws(false, &ctx);
+            sh.plain("print", &ctx);
         }
         _ => unreachable!(),
     }
